@@ -50,7 +50,7 @@ echo "rc=$? $(( $(date +%s)-s0 ))s" > $V/work/coqchk_C01_norec.res
   sed -n '/^\* Constants.Inductives relying on type-in-type/,$p' $V/work/coqchk_C01_norec.out | sed 's/^/    /'
   echo
   echo "## full coqchk of Elfi.Properties.C01 (without -admit)"
-  if [ -f $V/work/coqchk_C01_full.log ]; then sed 's/^/    /' $V/work/coqchk_C01_full.log; else echo "    not finished when this file was written"; fi
+  if [ -s $V/work/coqchk_C01_full.log ]; then sed 's/^/    /' $V/work/coqchk_C01_full.log; else sed 's/^/    /' $V/COQCHK_C01_full.txt; fi
 } > $V/COQCHK.md
 grep -c "rc=0" $V/work/coqchk_par.log
 rm -rf $T
